@@ -77,6 +77,21 @@ static CaseResult run_case(Tape &t)
 	R.attach();
 	s.start_server();
 	wm.v = &v; wm.domain = c.domain; wm.srv_idx = s.srv->idx; wm.judge_c14 = false; wm.attach(sim::W);
+	// one case in four: 10..15 other clients have taken slots before (they talk to the server directly), so that the client under
+	// test gets a two-digit user number -- the one place where a hexadecimal digit A..F, which a relay may change in case, appears
+	// in its queries
+	int occupied = 0;
+	std::vector<std::unique_ptr<scn::ScriptClient>> others;
+	if (t.chance(1, 4)) {
+		int n = t.range(10, 15);
+		for (int k = 0; k < n; k++) {
+			std::unique_ptr<scn::ScriptClient> oc(new scn::ScriptClient());
+			oc->addr = sim::Addr::v4(198, 51, 100, (uint8_t)(10 + k), (uint16_t)(6100 + k)); oc->domain = c.domain; oc->password = Bytes(c.password.begin(), c.password.end()); oc->next_id = (uint16_t)(20000 + 500 * k);
+			oc->attach();
+			if (oc->do_version()) occupied++;
+			others.push_back(std::move(oc));
+		}
+	}
 	s.start_client(0);
 	// negotiated settings, read off the wire
 	std::string neg_up = "Base32", neg_down = "?"; int neg_frag = 0, neg_type = 0; bool neg_lazy = false;
@@ -171,6 +186,7 @@ static CaseResult run_case(Tape &t)
 	r.nontrivial = !identity && (neg_up != "Base128" || neg_type != 10 || neg_frag < 1000);
 	r.cls("tunnel-up"); if (together) r.cls("both-directions-at-once"); r.cls("up:" + neg_up); r.cls("down:" + neg_down); r.cls(fmt("type:%d", neg_type));
 	r.cls(neg_frag >= 1000 ? "frag>=1000" : (neg_frag >= 400 ? "frag400-999" : (neg_frag >= 150 ? "frag150-399" : "frag<150")));
+	if (occupied >= 10) r.cls("user-number>=10");
 	if (forced) r.cls(forced == 1 ? "forced-T" : (forced == 2 ? "forced-O" : "forced-m"));
 	if (excluded_rawtxt) r.cls("excluded-known:K1-raw-over-TXT-with-punctuation-mangling");
 	if (excluded_forced) r.cls("excluded-known:K2-forced-codec-that-the-path-breaks");
